@@ -93,8 +93,26 @@ class Obligation:
         return s.to_smt2()
 
 
+def has_quantifier(e):
+    seen = set()
+    stack = [e]
+    while stack:
+        x = stack.pop()
+        if x.get_id() in seen:
+            continue
+        seen.add(x.get_id())
+        if z3.is_quantifier(x):
+            return True
+        stack.extend(x.children())
+    return False
+
+
 class Ctx:
-    """State of one execution path."""
+    """State of one execution path.
+
+    The incremental solver is used only to prune infeasible branches and to simplify index / slice
+    expressions.  Quantified assumptions are kept out of it (fewer assumptions = more paths kept, which is
+    sound) unless `full_feasibility` is set; every obligation still carries the complete path condition."""
 
     def __init__(self, decisions, rlimit=400000):
         self.pc: list = []
@@ -107,6 +125,7 @@ class Ctx:
         self.solver.set("rlimit", rlimit)
         self.dead = False
         self.defs = set()
+        self.full_feasibility = True
         self.checks = 0
 
     def fresh_name(self, hint):
@@ -129,7 +148,8 @@ class Ctx:
         if tag is not None:
             self.tags[len(self.pc)] = tag
         self.pc.append(f)
-        self.solver.add(f)
+        if self.full_feasibility or not has_quantifier(f):
+            self.solver.add(f)
 
     def define(self, key, builder):
         """Assume a definitional axiom (of an interpreted helper function) once per path."""
@@ -138,7 +158,8 @@ class Ctx:
         self.defs.add(key)
         ax = builder()
         self.pc.append(ax)
-        self.solver.add(ax)
+        if self.full_feasibility:
+            self.solver.add(ax)
 
     def known(self, f) -> bool:
         """True only if the path condition entails f (within the resource limit)."""
@@ -195,7 +216,8 @@ class Ctx:
             self.decisions.append(d)
         self.pos += 1
         self.pc.append(cond if d else z3.Not(cond))
-        self.solver.add(self.pc[-1])
+        if self.full_feasibility or not has_quantifier(self.pc[-1]):
+            self.solver.add(self.pc[-1])
         return d
 
 
